@@ -106,9 +106,15 @@ static Prob gen(Rng &r, bool small) {
 	}
 	return p;
 }
-static cholmod_sparse *to_sparse(const Prob &p) {
+static cholmod_sparse *to_sparse(const Prob &p, Rng *shuffle = nullptr) {
 	cholmod_dense *Ad = cholmod_l_allocate_dense(p.n, p.n, p.n, CHOLMOD_REAL, &CC); memcpy(Ad->x, p.A.data(), sizeof(double) * p.n * p.n);
-	cholmod_sparse *As = cholmod_l_dense_to_sparse(Ad, 1, &CC); cholmod_l_free_dense(&Ad, &CC); return As;
+	cholmod_sparse *As = cholmod_l_dense_to_sparse(Ad, 1, &CC); cholmod_l_free_dense(&Ad, &CC);
+	if (shuffle) { // the same matrix with the entries of every column stored in arbitrary row order (as cholmod_l_add(..., sorted = 0) leaves them, which is how the fitter assembles its matrix)
+		long *Ap = (long *)As->p, *Ai = (long *)As->i; double *Ax = (double *)As->x;
+		for (size_t j = 0; j < As->ncol; j++) for (long q = Ap[j + 1] - 1; q > Ap[j]; q--) { long w = Ap[j] + (long)shuffle->below((uint64_t)(q - Ap[j] + 1)); std::swap(Ai[q], Ai[w]); std::swap(Ax[q], Ax[w]); }
+		As->sorted = 0;
+	}
+	return As;
 }
 static std::string prob_json(const Prob &p, const double *x) {
 	std::string j = "{\"n\":" + std::to_string(p.n) + ",\"kind\":" + jstr(p.kind);
@@ -154,7 +160,7 @@ static void run_C11(const Args &a, long cs) {
 			cholmod_dense *Bd = cholmod_l_allocate_dense(m2, n, m2, CHOLMOD_REAL, &CC); memcpy(Bd->x, Bm.data(), sizeof(double) * m2 * n);
 			As = cholmod_l_dense_to_sparse(Bd, 1, &CC); cholmod_l_free_dense(&Bd, &CC);
 			bd = cholmod_l_allocate_dense(m2, 1, m2, CHOLMOD_REAL, &CC); memcpy(bd->x, y.data(), sizeof(double) * m2);
-		} else { As = to_sparse(p); bd = cholmod_l_allocate_dense(n, 1, n, CHOLMOD_REAL, &CC); memcpy(bd->x, p.b.data(), sizeof(double) * n); }
+		} else { bool unsorted = r.coin(0.4); if (unsorted) count("systems-with-unsorted-columns"); As = to_sparse(p, unsorted ? &r : nullptr); bd = cholmod_l_allocate_dense(n, 1, n, CHOLMOD_REAL, &CC); memcpy(bd->x, p.b.data(), sizeof(double) * n); }
 		(void)ncol;
 		phase_log(sv.name);
 		g_in_solver = 1; g_solver_name = sv.name;
